@@ -540,10 +540,16 @@ impl<'a> Ctl<'a> {
         }
         if self.env_pc < self.scn.env.len() {
             let serving = self.ready_seen.len() >= self.scn.workers;
+            // scenarios named "early-..." let the environment send as soon as every worker's socket
+            // is bound (main is past its spawn loop), i.e. possibly before a worker has built its
+            // Server: a request that is already queued when the worker registers its socket
+            let early = self.scn.name.starts_with("early-");
+            let all_bound = (0..self.scn.workers).all(|i| self.threads.contains_key(&format!("worker-{}", i)))
+                && (self.main_in_join || self.parked_at(&Actor::Main).map(|p| p.0 != "spawn").unwrap_or(false));
             let ok = match self.scn.env[self.env_pc] {
                 // "once the server is serving"
                 EnvAct::Signal(_) => serving,
-                _ => serving,
+                _ => serving || (early && all_bound),
             };
             if ok {
                 v.push(Actor::Env);
